@@ -1,3 +1,4 @@
+import Grol.CmpTotal
 /-
 Generic lemmas about three-way comparison functions `c : α → α → Int` (results −1/0/1):
 the laws of a total preorder stated pointwise in the first argument (`PW c a`), and how they
@@ -78,18 +79,9 @@ theorem PWon.congr {α : Type} {S : α → Prop} {c c' : α → α → Int} {a :
 
 /-! ### integers -/
 
-def cmpZ (a b : Int) : Int := if a < b then -1 else if b < a then 1 else 0
-
 theorem cmpZ_PW (a : Int) : PW cmpZ a := by
   refine ⟨fun b => ?_, ?_, fun b => ?_, fun b d => ?_, fun b d => ?_, fun b d => ?_⟩ <;>
     simp only [cmpZ] <;> repeat' split <;> omega
-
-/-- `none` (NaN) below every `some` -/
-def cmpO : Option Int → Option Int → Int
-  | none, none => 0
-  | none, some _ => -1
-  | some _, none => 1
-  | some a, some b => cmpZ a b
 
 theorem cmpO_PW (a : Option Int) : PW cmpO a := by
   refine ⟨fun b => ?_, ?_, fun b => ?_, fun b d => ?_, fun b d => ?_, fun b d => ?_⟩
